@@ -8,6 +8,10 @@ import re
 from harness.adapter import REPO
 from harness.tlcrun import MachineryError
 
+REF_CALLS = {'Cudd_Ref', 'cuddRef', 'sylvan_ref', 'bdd_addref'}
+DEREF_CALLS = {'Cudd_RecursiveDeref', 'Cudd_RecursiveDerefZdd', 'Cudd_Deref',
+               'cuddDeref', 'sylvan_deref', 'bdd_delref'}
+
 BACKENDS = {
     'cudd': 'dd/cudd.pyx',
     'cudd_zdd': 'dd/cudd_zdd.pyx',
@@ -206,6 +210,11 @@ def extract_apply(backend):
                 continue
             m = re.match(r'^([A-Za-z_]\w*)\s*(?::\s*[\w\.]+)?\s*=\s*(.+)$', st)
             if not m:
+                mc = re.match(r'^(?:\w+\.)?(\w+)\s*\(', st)
+                if mc and mc.group(1) in REF_CALLS | DEREF_CALLS:
+                    continue      # reference bookkeeping: judged by the path analysis (Part B)
+                if st.startswith(("f'", "'", '"', 'f"')) or st.endswith(("')", '")')):
+                    continue      # continuation of a raise message
                 raise MachineryError('%s.apply: unrecognised statement %r' % (backend, st))
             var, rhs = m.group(1), m.group(2)
             e = subst(parse_expr(rhs), env)
@@ -269,9 +278,6 @@ def vocabulary_checks(backend):
 
 
 # =================== Part B: reference discipline ===================
-REF_CALLS = {'Cudd_Ref', 'cuddRef', 'sylvan_ref', 'bdd_addref'}
-DEREF_CALLS = {'Cudd_RecursiveDeref', 'Cudd_RecursiveDerefZdd', 'Cudd_Deref',
-               'cuddDeref', 'sylvan_deref', 'bdd_delref'}
 _DEF = re.compile(r'^(\s*)(?:cpdef|cdef|def)\s+(?:inline\s+)?(?:[\w\[\]\.\*]+\s+)*?(\w+)\s*\($')
 _DEF1 = re.compile(r'^(\s*)(?:cpdef|cdef|def)\s+(?:inline\s+)?(?:[\w\[\]\.\*]+\s+)*?(\w+)\s*\(')
 
@@ -421,7 +427,7 @@ def _paths(b, states, limit):
                 evs = []
                 dec2, al2 = dec, al
                 m = re.match(r'^([\w\.\[\]]+)\s*(?::\s*[\w\.]+)?\s*=\s*([\w\.\[\]]+)$', s)
-                if m:
+                if m and m.group(2) not in ('NULL', 'None', 'True', 'False') and not m.group(2).isdigit():
                     al2 = dict(al)
                     al2[m.group(1)] = al.get(m.group(2), m.group(2))
                 ma = re.match(r'^([A-Za-z_]\w*)\b[^=]*=[^=]', s)
